@@ -270,7 +270,7 @@ Qed.
 
 Lemma step_env_eq fs c env :
   step fs c (LoadShellEnv env) =
-  match remerge c ONone with
+  match remerge (set_env c (Node [])) ONone with
   | (c1, OErr e) => (c1, OErr e)
   | (c1, _) =>
       match load (Node (c_cache c1)) (c_env_prefix c1) env with
@@ -279,7 +279,7 @@ Lemma step_env_eq fs c env :
       end
   end.
 Proof.
-  unfold step, step_with, merged. destruct (remerge c ONone) as [c1 o].
+  unfold step, step_with, merged. destruct (remerge (set_env c (Node [])) ONone) as [c1 o].
   destruct o; try reflexivity;
     destruct (load (Node (c_cache c1)) (c_env_prefix c1) env); try reflexivity;
     destruct (remerge (set_env c1 (Node a)) ONone); reflexivity.
@@ -297,7 +297,10 @@ Qed.
 Lemma env_step_same fs env a b :
   strip a = strip b -> step fs a (LoadShellEnv env) = step fs b (LoadShellEnv env).
 Proof.
-  intros E. rewrite (strip_eq_set_cache a b E), !step_env_eq, remerge_set_cache. reflexivity.
+  intros E. rewrite (strip_eq_set_cache a b E), !step_env_eq.
+  replace (set_env (set_cache b (c_cache a)) (Node [])) with (set_cache (set_env b (Node [])) (c_cache a))
+    by (destruct b; reflexivity).
+  rewrite remerge_set_cache. reflexivity.
 Qed.
 
 (** * Load-order irrelevance *)
